@@ -438,6 +438,47 @@ fn main() {
     writeln!(m, "];").unwrap();
     std::fs::write(Path::new(&out_dir).join("model_gen.rs"), m).unwrap();
 
+    // ---------------------------------------------------------------- xml_gen.rs (codec table for C13)
+    {
+        let path = format!("{REPO}/crates/s3s/src/xml/generated.rs");
+        println!("cargo:rerun-if-changed={path}");
+        let src = std::fs::read_to_string(&path).expect("read xml/generated.rs");
+        let file = syn::parse_file(&src).expect("parse xml/generated.rs");
+        let mut sets: std::collections::BTreeMap<String, std::collections::BTreeSet<String>> = Default::default();
+        for item in &file.items {
+            if let syn::Item::Impl(im) = item {
+                if let Some((_, tr, _)) = &im.trait_ {
+                    let tname = tr.segments.last().map(|s| s.ident.to_string()).unwrap_or_default();
+                    sets.entry(tname).or_default().insert(ty_str(&im.self_ty));
+                }
+            }
+        }
+        let empty = std::collections::BTreeSet::new();
+        let ser = sets.get("Serialize").unwrap_or(&empty);
+        let de = sets.get("Deserialize").unwrap_or(&empty);
+        let serc = sets.get("SerializeContent").unwrap_or(&empty);
+        let dec = sets.get("DeserializeContent").unwrap_or(&empty);
+        let is_struct_or_union = |n: &str| dtos.iter().any(|d| match d { Dto::Struct { name, .. } | Dto::Union { name, .. } | Dto::StrEnum { name, .. } => name == n });
+        let mut x = String::from("pub fn xml_drivers() -> Vec<Box<dyn XmlDriver>> {\n    vec![\n");
+        let mut n_root = 0;
+        let mut n_content = 0;
+        for t in ser.intersection(de) {
+            if !is_struct_or_union(t) { continue; }
+            x.push_str(&format!("        Box::new(RootCodec::<{t}>::new({t:?})),\n"));
+            n_root += 1;
+        }
+        for t in serc.intersection(dec) {
+            if !is_struct_or_union(t) { continue; }
+            x.push_str(&format!("        Box::new(ContentCodec::<{t}>::new({t:?})),\n"));
+            n_content += 1;
+        }
+        x.push_str("    ]\n}\n");
+        x.push_str(&format!("pub const XML_ROOT_TYPES: usize = {n_root};\npub const XML_CONTENT_TYPES: usize = {n_content};\n"));
+        let only_ser: Vec<&String> = ser.difference(de).collect();
+        x.push_str(&format!("pub const XML_ENCODE_ONLY_ROOTS: &[&str] = &{only_ser:?};\n"));
+        std::fs::write(Path::new(&out_dir).join("xml_gen.rs"), x).unwrap();
+    }
+
     // ---------------------------------------------------------------- errors_gen.rs (G4)
     let path = format!("{REPO}/data/s3_error_codes.json");
     println!("cargo:rerun-if-changed={path}");
